@@ -108,6 +108,7 @@ def step (st : St) (line : String) : St × List String :=
       | some v => let st' := { st with w := st.w.set k v, keys := k :: st.keys }; (st', report st' [])
       | none => (st, ["bad-op"])
   | ["unsetbb", k] => let st' := { st with w := st.w.unset k }; (st', report st' [])
+  | ["render"] => (st, "RO ok" :: report st [])    -- rendering is a pure function of the state in the model
   | "mgr" :: rest =>
       let v := getTok rest "v="
       let m : Mgr := { visitors := v.toList.map (· == 'f'), nPre := (getTok rest "pre=").toNat?.getD 0,
